@@ -1170,6 +1170,9 @@ func centroidHandler(raw json.RawMessage) map[string]any {
 			cenOut(func() geom.Coord { return xy.MultiPointCentroid(mp) }),
 			cenOut(func() geom.Coord { return xy.PointsCentroidFlat(layout, flat) }),
 			cenOut(func() geom.Coord { c, _ := xy.Centroid(mp); return c }))
+		if len(pts) == 1 {
+			res = append(res, cenOut(func() geom.Coord { c, _ := xy.Centroid(pts[0]); return c }))
+		}
 	}
 	out["res"] = res
 	return out
